@@ -733,20 +733,25 @@ def compare_schemas(write: Any, read: Any) -> Any:
     if isinstance(write, Mapping):
         if not isinstance(read, Mapping):
             raise ValueError
-        merged: Dict[str, Any] = {}
-        for key in write.keys() | read.keys():
+        # JsonSchema (not dict) for the version conversion to apply; declaration order kept
+        merged: Dict[str, Any] = JsonSchema()
+        for key in [*write, *(k for k in read if k not in write)]:
             if key in write and key in read:
                 if key == "properties":
                     merged[key] = {}
-                    for prop in write[key].keys() | read[key].keys():
+                    for prop in [*write[key], *(p for p in read[key] if p not in write[key])]:
                         if prop in write[key] and prop in read[key]:
                             merged[key][prop] = compare_schemas(
                                 write[key][prop], read[key][prop]
                             )
                         elif prop in write[key]:
-                            merged[key][prop] = {**write[key][prop], "writeOnly": True}
+                            merged[key][prop] = JsonSchema(
+                                {**write[key][prop], "writeOnly": True}
+                            )
                         else:
-                            merged[key][prop] = {**read[key][prop], "readOnly": True}
+                            merged[key][prop] = JsonSchema(
+                                {**read[key][prop], "readOnly": True}
+                            )
                 elif key in {
                     "required",
                     "dependentRequired",
